@@ -426,9 +426,15 @@ class Program(object):
         self._dyn_bindings = dyn
 
     def closure_param_bindings(self, body_path):
+        """Closures a generic `F: Fn*` value may be in this body. A closure body sees the generic
+        parameters of its enclosing function (it can capture and call them)."""
         if self._closure_bindings is None:
             self._compute_bindings()
-        return self._closure_bindings.get(body_path, set())
+        out = set(self._closure_bindings.get(body_path, set()))
+        b = self.bodies.get(body_path)
+        if b is not None and b.is_closure and b.root:
+            out |= self._closure_bindings.get(b.root, set())
+        return out
 
     def dyn_fn_closures(self):
         if self._dyn_bindings is None:
